@@ -278,6 +278,9 @@ struct WaitProg : Program
     // 3 all     : A, B; waker gated on both queued: unwait_all(55)
     // 4 one_of_2: A, B (B after A); waker gated on both queued: ONE unwait_one(100): A returns, B must stay parked
     // 5 all_race: A, B free; waker: gate non-empty, unwait_all(55); gate "B not returned => non-empty or done" second unwait_all(56)
+    // 7 3w2k    : three waiters, two wakers racing each other (X: two gated unwait_one, Y: one), then X sweeps stragglers with
+    //             unwait_all; beyond what two wakers' gates can promise, every waiter still returns exactly once and no
+    //             unwait_one value reaches two waiters
     // 6 early   : 1 waiter; waker issues unwait_one(1) and unwait_all(2) UNGATED (the queue may still be empty: a wake over an
     //             empty queue is a no-op that leaves the system lock free), then a gated unwait_one(3)
     int variant;
@@ -286,7 +289,7 @@ struct WaitProg : Program
     std::atomic<int> b_parked_at_quiescence{-1}, a_back_at_quiescence{-1};
     WaitProg(int v) : variant(v)
     {
-        static const char *nm[] = {"W_race", "W_fifo", "W_prio", "W_all", "W_one_of_two", "W_all_race", "W_early_wake"};
+        static const char *nm[] = {"W_race", "W_fifo", "W_prio", "W_all", "W_one_of_two", "W_all_race", "W_early_wake", "W_3w2k"};
         name = nm[v];
     }
     void waiter(int id, int prio)
@@ -376,6 +379,37 @@ struct WaitProg : Program
                 },
                 "waker");
             break;
+        case 7:
+        {
+            for (int w = 0; w < 3; w++)
+                sched::spawn([this, w] { waiter(w, 0); }, w == 0 ? "waiterA" : w == 1 ? "waiterB" : "waiterC");
+            auto all_back = [this] { return log.returned[0].load() && log.returned[1].load() && log.returned[2].load(); };
+            auto gate = [this, all_back] { return !head->empty() || all_back(); };
+            sched::spawn(
+                [this, gate, all_back] {
+                    for (int k = 1; k <= 2; k++)
+                    {
+                        sched::wait_until(gate, "somebody queued or everybody back");
+                        unwait_one(head.get(), FUT + k); // may find the queue emptied by the other waker: a no-op
+                    }
+                    while (!all_back())
+                    {
+                        sched::wait_until(gate, "straggler queued or everybody back");
+                        if (!all_back())
+                            unwait_all(head.get(), FUT + 9);
+                    }
+                    log.returned[3] = 1;
+                },
+                "wakerX");
+            sched::spawn(
+                [this, gate] {
+                    sched::wait_until(gate, "somebody queued or everybody back");
+                    unwait_one(head.get(), FUT + 3);
+                    log.returned[4] = 1;
+                },
+                "wakerY");
+            break;
+        }
         case 6:
             sched::spawn([this] { waiter(0, 0); }, "waiter");
             sched::spawn(
@@ -452,6 +486,25 @@ struct WaitProg : Program
             want(0, FUT + 55);
             want(1, FUT + 55);
             break;
+        case 7:
+        {
+            int uses[10] = {0};
+            for (int id = 0; id < 3; id++)
+            {
+                long v = log.value[id] - FUT;
+                if (log.returned[id] != 1 || !(v == 1 || v == 2 || v == 3 || v == 9))
+                    mc::violation("C20." + name + ".wrong_future", "waiter %d returned %d times with %ld", id, log.returned[id].load(), log.value[id].load());
+                else
+                    uses[v]++;
+            }
+            for (int v = 1; v <= 3; v++)
+                if (uses[v] > 1)
+                    mc::violation("C20." + name + ".one_wake_two_waiters", "the value of ONE unwait_one call (%d) was delivered to %d waiters", v, uses[v]);
+            if (!head->empty())
+                mc::violation("C20." + name + ".queue_not_empty", "the wait queue still holds a node after every waiter returned");
+            mc::outcome(mc::fmt("%s C=%ld@%d", name.c_str(), log.value[2].load(), log.stamp[2].load()));
+            break;
+        }
         case 6:
             if (log.returned[0] != 1 || log.value[0] < FUT + 1 || log.value[0] > FUT + 3)
                 mc::violation("C20." + name + ".wrong_future", "the waiter returned %d times with %ld, want once with one of the three wake values",
@@ -691,6 +744,9 @@ MC_INIT
         add_prog(WaitProg(v).name, [v] { return new WaitProg(v); }, 2, 3);
         add_one(WaitProg(v).name, [v] { return new WaitProg(v); }, 2, 1, true); // + one spurious condvar wake-up
     }
+    // five threads: every schedule without preemption (a switch only where the running thread blocks, yields or ends;
+    // ~18 000 executions), thorough only - one preemption already costs millions of executions
+    add_one(WaitProg(7).name, [] { return new WaitProg(7); }, 0, 0, true);
     add_prog("Q_size", [] { return new QueueSizeProg(); }, 2, 3);
     for (int c = 1; c <= 2; c++)
         add_prog(QueueProg(c).name, [c] { return new QueueProg(c); }, c == 1 ? 2 : 1, c == 1 ? 3 : 2);
